@@ -137,6 +137,19 @@ CLAIMED["C17"] = dict(
          "without geometric attributes; refusals; dtype kinds incl. inferred complex dtypes natively.",
     ref="DESIGN.md section 2 / C17",
 )
+CLAIMED["C11"] = dict(
+    text="Field.fftn/ifftn/rfftn/irfftn and Mesh.fftn/ifftn run with symbolic cell sizes, mesh position and symbolic real or "
+         "complex cell values against an exact-DFT stub of scipy.fft (axis lengths 1,2,3,4,6: roots of unity are rationals, i "
+         "and sqrt(3) with the exact square-root encoding): k-cell centres equal the shifted DFT sample frequencies m/(n*cell) "
+         "for every cell (rfft: non-negative half on the last axis), reciprocal names/units; the stored value of every k-cell "
+         "equals sum_r f[r] exp(-2 pi i k.r) at that cell's frequency (so fftshift/axes/placement are decided), zero-frequency "
+         "cell = plain sum; inverse(forward(f)) = f on the original counts and cell size centred at the origin, with and "
+         "without shape; rfftn = matching half of fftn through the k coordinates; linearity with free alpha/beta; label and "
+         "mapping renaming incl. labels starting with f/t/_; Mesh-level geometry and shape refusals also for lengths 5,7,8,9,10.",
+    ref="DESIGN.md section 2 / C11",
+    note=NOTE_COMMON + "; scipy.fft.fftn/ifftn/rfftn/irfftn replaced by an exact DFT with SciPy's documented bin order and "
+         "normalisation (native replays use the real SciPy); value-level checks only for axis lengths 1,2,3,4,6",
+)
 PENDING_REASON = "check not built yet in this round (planned: DESIGN.md section 2); not claimed until it runs green"
 NA = {}
 
